@@ -63,9 +63,11 @@ class Recorder:
     def __init__(self, loop):
         self.loop = loop
         self.events = []
+        self.active = True
 
     def ev(self, kind, arg=None):
-        self.events.append((self.loop.time(), self.loop.iter, kind, arg))
+        if self.active:
+            self.events.append((self.loop.time(), self.loop.iter, kind, arg))
 
 
 def run_scenario(script, close_at=None, threshold=5, sleep_sec=5, max_delay=60, max_iters=100000, close_time=None):
@@ -104,7 +106,7 @@ def run_scenario(script, close_at=None, threshold=5, sleep_sec=5, max_delay=60, 
         rec.ev("obtained", k)
         if lifetime is not None:
             def lose():
-                if not pr.done.done():
+                if not pr.done.done() and not tr.closed:
                     rec.ev("lost", k)
                     tr.closed = True     # the connection is gone
                     pr.done.set_result(None)
@@ -137,6 +139,7 @@ def run_scenario(script, close_at=None, threshold=5, sleep_sec=5, max_delay=60, 
         task = loop.create_task(mgr.connect_loop())
         task.add_done_callback(lambda t: rec.ev("loop_done"))
         loop.run_forever()
+        rec.active = False
         pending = [t for t in asyncio.all_tasks(loop) if not t.done()]
         result = {"events": rec.events, "iters": loop.iter, "loop_done": task.done(), "pending_end": len(pending),
                   "max_pending": loop.max_pending, "exception": (repr(task.exception()) if task.done() and not task.cancelled() and task.exception() else None)}
